@@ -21,6 +21,7 @@ EXT_SUFFIX = sysconfig.get_config_var('EXT_SUFFIX')
 PY_INC = sysconfig.get_config_var('INCLUDEPY')
 CACHE = os.environ.get('VERIF_OBJCACHE', '/var/tmp/verif-objcache')
 CACHE_MAX_BYTES = 600 * 1024 * 1024
+GEN_FALLBACK = os.environ.get('VERIF_GEN_FALLBACK', '')
 
 PY_CFLAGS = ['-fno-strict-overflow', '-DNDEBUG', '-O3', '-fPIC', '-w']
 WARN = ['-Wno-unused-function', '-Wno-unreachable-code', '-Wno-sign-compare']
@@ -170,6 +171,8 @@ def _cache_trim():
 def _compile(repo, src, lang, flags, incs, objdir, gccv):
     """Compile one TU (with a content-addressed cache).  Returns the object path."""
     sp = os.path.join(repo, src)
+    if not os.path.exists(sp) and GEN_FALLBACK and os.path.exists(os.path.join(GEN_FALLBACK, src)):
+        sp = os.path.join(GEN_FALLBACK, src)     # generated (git-ignored) Cython output of a snapshot lives in the main tree
     if not os.path.exists(sp):
         raise BuildError('missing source %s (generated Cython output cannot be re-derived: no Cython here)' % sp)
     with open(sp, 'rb') as f:
@@ -246,7 +249,8 @@ def build_overlay(dest, exts=None, sim_omp=False, sim_clock=False, repo=None, lo
     for name in ALL_EXTS:
         spec = EXTS[name]
         so_name = name + EXT_SUFFIX
-        have_gen = all(os.path.exists(os.path.join(repo, g)) for g in spec['gen'])
+        have_gen = all(os.path.exists(os.path.join(repo, g)) or (GEN_FALLBACK and os.path.exists(os.path.join(GEN_FALLBACK, g)))
+                       for g in spec['gen'])
         if name in exts and have_gen:
             plan[name] = []
             base = list(PY_CFLAGS) + list(spec.get('defs', []))
@@ -275,7 +279,7 @@ def build_overlay(dest, exts=None, sim_omp=False, sim_clock=False, repo=None, lo
         return name, _compile(repo, s, lang, fl, incs, objdir, gccv)
 
     # largest TUs first
-    jobs.sort(key=lambda j: -os.path.getsize(os.path.join(repo, j[1])) if os.path.exists(os.path.join(repo, j[1])) else 0)
+    jobs.sort(key=lambda j: -os.path.getsize(os.path.join(repo, j[1])) if os.path.exists(os.path.join(repo, j[1])) else -10 ** 7)
     with ThreadPoolExecutor(max_workers=min(16, os.cpu_count() or 4)) as ex:
         for name, obj in ex.map(run, jobs):
             plan[name].append(obj)
